@@ -130,6 +130,18 @@ Section Reparse.
   Notation from_obj' := (from_obj env hash_names H uuid5 fs json_loads json_dumps severable_ids steps_processed steps_digest_ext).
   Notation to_obj' := (to_obj env).
 
+  (* reading one entry of an unnamed map with the (key type, value type) pair number i — as from_obj does *)
+  Definition key_read (f : nat) (kt : ty) (k : cbor) : res val :=
+    match k with
+    | CText ks => catch_value (let* j := json_loads ks in from_obj' f kt j) (from_obj' f kt k)
+    | CBytes ks => catch_value (let* j := json_loads ks in from_obj' f kt j) (from_obj' f kt k)
+    | _ => Raise TypeError
+    end.
+  Definition kvu_attempt (f : nat) (kt vt : ty) (i : nat) (k x : cbor) : res (nat * val * val) :=
+    let* kv := key_read f kt k in
+    let* vv := from_obj' f vt x in
+    Ok (i, kv, vv).
+
   (* stable trees *)
   Inductive st : ty -> val -> Prop :=
   | st_ref n t v : lookup n env = Some t -> st t v -> st (TRef n) v
@@ -174,7 +186,15 @@ Section Reparse.
       (forall p, In p l -> fst (fst (snd p)) = O /\ st kt (snd (fst (snd p))) /\ st vt (snd (snd p))
                            /\ forall f o, to_obj' f vt (snd (snd p)) = Ok o ->
                                  to_obj' f kt (snd (fst (snd p))) = Ok (fst p) /\ exists s, o = CText s /\ all_hexdigits s = true) ->
-      st (TPayloadMap kt vt) (VKVU l).
+      st (TPayloadMap kt vt) (VKVU l)
+  (* unnamed maps (text maps): every entry is read back by the pair it was parsed with; earlier pairs reject it *)
+  | st_kvu pairs l :
+      ForallOrdPairs (fun p q => py_eqb (fst q) (fst p) = false) l ->
+      (forall p, In p l -> exists kt vt, nth_error pairs (fst (fst (snd p))) = Some (kt, vt) /\ st vt (snd (snd p))
+         /\ forall f o, to_obj' f vt (snd (snd p)) = Ok o ->
+               key_read f kt (fst p) = Ok (snd (fst (snd p)))
+               /\ forall j kt' vt', (j < fst (fst (snd p)))%nat -> nth_error pairs j = Some (kt', vt') -> kvu_attempt f kt' vt' j (fst p) o = Raise ValueError) ->
+      st (TKVUnnamed pairs) (VKVU l).
 
   Section Body.
     Variable tcbor : ty -> val -> res bytes.
@@ -687,6 +707,121 @@ Section Reparse.
       Qed.
     End Payload.
 
+    (* unnamed maps *)
+    Section KVU.
+      Variable pairs : list (ty * ty).
+      Definition ushown (l : list (cbor * (nat * val * val))) (d : list (cbor * cbor)) : Prop :=
+        Forall2 (fun p kv => fst kv = fst p /\ exists kt vt, nth_error pairs (fst (fst (snd p))) = Some (kt, vt) /\ rto vt (snd (snd p)) = Ok (snd kv)) l d.
+
+      Lemma kvu_shown l : forall done acc o, ushown done acc -> ForallOrdPairs (fun p q => py_eqb (fst q) (fst p) = false) (done ++ l) ->
+        (fix go (l : list (cbor * (nat * val * val))) (acc : list (cbor * cbor)) : res cbor :=
+           match l with
+           | [] => Ok (CMap acc)
+           | (dk, (pi, _, vv)) :: r =>
+               match nth_error pairs pi with
+               | None => Raise Unsupported
+               | Some (_, vt) => let* o := rto vt vv in go r (dict_set acc dk o)
+               end
+           end) l acc = Ok o -> exists d, o = CMap d /\ ushown (done ++ l) d.
+      Proof.
+        induction l as [|[dk [[pi kv] vv]] r IHl]; intros done acc o Hs Hord Hgo.
+        - injection Hgo as <-. exists acc. rewrite app_nil_r. auto.
+        - destruct (nth_error pairs pi) as [[kt vt]|] eqn:En; [|discriminate].
+          destruct (rto vt vv) as [ov|] eqn:Ev; cbn [bind] in Hgo; [|discriminate].
+          assert (Hfresh : Forall (fun kv0 => py_eqb dk (fst kv0) = false) acc).
+          { destruct (ordpairs_app_inv _ done _ Hord) as [_ Hab].
+            clear - Hs Hab. induction Hs as [|p kv0 done acc [Hk _] _ IHs]; [constructor|]. constructor.
+            - rewrite Hk. exact (Hab p (dk, (pi, kv, vv)) (or_introl eq_refl) (or_introl eq_refl)).
+            - apply IHs. intros x y Hx Hy. apply Hab; [right; exact Hx|exact Hy]. }
+          rewrite (dict_set_fresh acc dk ov Hfresh) in Hgo.
+          replace (done ++ (dk, (pi, kv, vv)) :: r) with ((done ++ [(dk, (pi, kv, vv))]) ++ r) in * by (rewrite <- app_assoc; reflexivity).
+          apply (IHl (done ++ [(dk, (pi, kv, vv))]) (acc ++ [(dk, ov)]) o); [|exact Hord|exact Hgo].
+          apply Forall2_app; [exact Hs|]. constructor; [|constructor]. cbn [fst snd]. split; [reflexivity|]. exists kt, vt. auto.
+      Qed.
+
+      (* the try loop over the pairs stops at the pair the entry was parsed with *)
+      Lemma try_back k x pi kt vt kv vv : nth_error pairs pi = Some (kt, vt) ->
+        key_read f kt k = Ok kv -> rfrom vt x = Ok vv ->
+        (forall j kt' vt', (j < pi)%nat -> nth_error pairs j = Some (kt', vt') -> kvu_attempt f kt' vt' j k x = Raise ValueError) ->
+        forall ps i, (forall j p, nth_error ps j = Some p -> nth_error pairs (i + j) = Some p) -> (i <= pi)%nat -> (pi < i + length ps)%nat ->
+        (fix try (ps : list (ty * ty)) (i : nat) : res (nat * val * val) :=
+           match ps with
+           | [] => Raise ValueError
+           | (kt, vt) :: ps' =>
+               let attempt :=
+                 let* kv :=
+                   match k with
+                   | CText ks => catch_value (let* j := json_loads ks in rfrom kt j) (rfrom kt k)
+                   | CBytes ks => catch_value (let* j := json_loads ks in rfrom kt j) (rfrom kt k)
+                   | _ => Raise TypeError
+                   end in
+                 let* vv := rfrom vt x in
+                 Ok (i, kv, vv) in
+               match attempt with Raise ValueError => try ps' (S i) | other => other end
+           end) ps i = Ok (pi, kv, vv).
+      Proof.
+        intros Hn Hk Hv Hrej. induction ps as [|[kt0 vt0] ps' IHp]; intros i Hsub Hi Hlt; [cbn [length] in Hlt; lia|]. cbv zeta.
+        pose proof (Hsub O _ eq_refl) as H0. rewrite Nat.add_0_r in H0.
+        assert (Hatt : forall kt1 vt1, (let* kv0 := match k with
+                                    | CText ks => catch_value (let* j := json_loads ks in rfrom kt1 j) (rfrom kt1 k)
+                                    | CBytes ks => catch_value (let* j := json_loads ks in rfrom kt1 j) (rfrom kt1 k)
+                                    | _ => Raise TypeError end in let* vv0 := rfrom vt1 x in Ok (i, kv0, vv0)) = kvu_attempt f kt1 vt1 i k x).
+        { intros kt1 vt1. unfold kvu_attempt, key_read. destruct k; try reflexivity; rewrite !Hrfrom; (match goal with |- context [json_loads ?l] => destruct (json_loads l) as [j|e] end); cbn [bind]; rewrite ?Hrfrom; reflexivity. }
+        rewrite Hatt.
+        destruct (Nat.eq_dec i pi) as [->|Hne].
+        - rewrite Hn in H0. injection H0 as <- <-. unfold kvu_attempt. rewrite Hk. cbn [bind]. rewrite <- Hrfrom, Hv. reflexivity.
+        - rewrite (Hrej i kt0 vt0 ltac:(lia) H0). apply IHp; [|lia|cbn [length] in Hlt; lia].
+          intros j p Hj. replace (S i + j)%nat with (i + S j)%nat by lia. apply Hsub. exact Hj.
+      Qed.
+
+      Definition uentry (p : cbor * (nat * val * val)) : Prop :=
+        exists kt vt, nth_error pairs (fst (fst (snd p))) = Some (kt, vt) /\ st vt (snd (snd p))
+          /\ forall o, rto vt (snd (snd p)) = Ok o ->
+               key_read f kt (fst p) = Ok (snd (fst (snd p)))
+               /\ forall j kt' vt', (j < fst (fst (snd p)))%nat -> nth_error pairs j = Some (kt', vt') -> kvu_attempt f kt' vt' j (fst p) o = Raise ValueError.
+
+      Lemma kvu_back d2 : forall done l2, ushown l2 d2 -> (forall p, In p l2 -> uentry p) ->
+        ForallOrdPairs (fun p q => py_eqb (fst q) (fst p) = false) (done ++ l2) ->
+        (fix go (d : list (cbor * cbor)) (acc : list (cbor * (nat * val * val))) : res val :=
+           match d with
+           | [] => Ok (VKVU acc)
+           | (k, x) :: r =>
+               let* hit :=
+                 (fix try (ps : list (ty * ty)) (i : nat) : res (nat * val * val) :=
+                    match ps with
+                    | [] => Raise ValueError
+                    | (kt, vt) :: ps' =>
+                        let attempt :=
+                          let* kv :=
+                            match k with
+                            | CText ks => catch_value (let* j := json_loads ks in rfrom kt j) (rfrom kt k)
+                            | CBytes ks => catch_value (let* j := json_loads ks in rfrom kt j) (rfrom kt k)
+                            | _ => Raise TypeError
+                            end in
+                          let* vv := rfrom vt x in
+                          Ok (i, kv, vv) in
+                        match attempt with Raise ValueError => try ps' (S i) | other => other end
+                    end) pairs O in
+               go r (kvu_set acc k hit)
+           end) d2 done = Ok (VKVU (done ++ l2)).
+      Proof.
+        induction d2 as [|[k x] r IHd]; intros done l2 Hs Hent Hord; inversion Hs as [|p kv0 l2' d' [Hk (kt0 & vt0 & Hn0 & Hto)] Hs']; subst.
+        - rewrite app_nil_r. reflexivity.
+        - cbn [fst snd] in *. subst k. destruct (Hent p (or_introl eq_refl)) as (kt & vt & Hn & Hstv & Hsem).
+          rewrite Hn in Hn0. injection Hn0 as <- <-. destruct (Hsem x Hto) as [Hkey Hrej].
+          match goal with |- bind ?T _ = _ => assert (HT : T = Ok (fst (fst (snd p)), snd (fst (snd p)), snd (snd p))) end.
+          { apply (try_back (fst p) x (fst (fst (snd p))) kt vt (snd (fst (snd p))) (snd (snd p)) Hn Hkey (IH vt _ _ Hstv Hto) Hrej pairs O (fun j q Hj => Hj) (Nat.le_0_l _)).
+            apply nth_error_Some. rewrite Hn. discriminate. }
+          rewrite HT. cbn [bind].
+          assert (Hfresh : Forall (fun e => py_eqb (fst p) (fst e) = false) done).
+          { destruct (ordpairs_app_inv _ done _ Hord) as [_ Hab]. apply Forall_forall. intros e He. exact (Hab e p He (or_introl eq_refl)). }
+          rewrite (kvu_set_fresh done (fst p) _ Hfresh).
+          destruct p as [dk [[pi kv] vv]]. cbn [fst snd] in *.
+          replace (done ++ (dk, (pi, kv, vv)) :: l2') with ((done ++ [(dk, (pi, kv, vv))]) ++ l2') in * by (rewrite <- app_assoc; reflexivity).
+          apply IHd; [exact Hs'|intros q Hq; apply Hent; right; exact Hq|exact Hord].
+      Qed.
+    End KVU.
+
     Lemma union_back alts0 i t v o : nth_error alts0 i = Some t -> rfrom t o = Ok v ->
       (forall j a, (j < i)%nat -> nth_error alts0 j = Some a -> rfrom a o = Raise ValueError) ->
       forall alts k, (forall j a, nth_error alts j = Some a -> nth_error alts0 (k + j) = Some a) -> (k <= i)%nat -> (i < k + length alts)%nat ->
@@ -757,6 +892,10 @@ Section Reparse.
         apply (pay_back kt vt d [] l Hs); [|exact H0].
         intros p Hp. destruct (H1 p Hp) as (Hpi & Hk & Hv & Hsem). split; [exact Hpi|]. split; [exact Hk|]. split; [exact Hv|].
         intros o' Ho'. rewrite Hrto in Ho'. destruct (Hsem f o' Ho') as [Hkk Hex]. rewrite Hrto. auto.
+      - (* unnamed map *) intros Hto. destruct (kvu_shown pairs l [] [] o (Forall2_nil _) H0 Hto) as (d & -> & Hs). cbn [app dict_items bind] in *.
+        apply (kvu_back pairs d [] l Hs); [|exact H0].
+        intros p Hp. destruct (H1 p Hp) as (kt & vt & Hn & Hstv & Hsem). exists kt, vt. split; [exact Hn|]. split; [exact Hstv|].
+        intros o' Ho'. rewrite Hrto in Ho'. exact (Hsem f o' Ho').
     Qed.
   End Body.
 
